@@ -228,11 +228,14 @@ func main() {
 	r.SetRule(fmt.Sprintf("rings of 1..%d nodes, each owning 1 or 2 tokens, every ownership sequence around the ring (nodes numbered by first appearance; quick adds the 4-node rings with one token per node: %d sequences); "+
 		"every labelling of the nodes over {dc1,dc2}x{r1,r2}; SimpleStrategy rf 0..4 and NetworkTopologyStrategy with dc1, dc2 each absent/0/1/2/3 and a DC the ring lacks absent/1/3 (%d settings); "+
 		"Murmur3, Random and ByteOrdered rings; lookup tokens equal to every ring token, between every neighbouring pair, below the smallest and above the largest. "+
-		"One evaluation = one replica map built or one lookup in it; a case (ring, labelling, setting) is non-trivial when Cassandra places at least one replica for some token.", maxNodes, len(arrs), len(strats)))
+		"One evaluation = one replica map built or one lookup in it; a case (ring, labelling, setting) is non-trivial when Cassandra places at least one replica for some token. "+
+		seqRule(r.Thorough())+" There one evaluation = one event applied or one lookup after it.", maxNodes, len(arrs), len(strats)))
 	r.Assume("Cassandra's placement is as ported in /verif/engine/refcass (2.x/3.0 NetworkTopologyStrategy cross-checked against the 3.11/4.x rewrite on 633k enumerated cases; SimpleStrategy)",
 		"replica lists are compared as sets; order is only constrained by 'range owner first whenever its datacenter holds replicas' (SimpleStrategy: whenever rf > 0)",
 		"ByteOrdered ring tokens are lower-case hex strings whose string order equals Cassandra's byte order; how gocql relates such strings to key bytes is not part of this property",
-		"rf values reach gocql as strings (system_schema) or ints (alternating), as getReplicationFactorFromOpts accepts both")
+		"rf values reach gocql as strings (system_schema) or ints (alternating), as getReplicationFactorFromOpts accepts both",
+		"topology-change sequences: a failing keyspace metadata fetch is transient (the keyspace's replication is unchanged, so Cassandra's placement on the current ring is the truth); after an event during which the fetch failed the policy may hold no replica map entry for the keyspace (it then routes by the current ring's owner), but an entry it does hold must be Cassandra's placement on the current ring; after an event during which the fetch succeeded the entry must be exactly that placement",
+		"topology-change sequences: all nodes are up; the policy is TokenAwareHostPolicy(RoundRobinHostPolicy()) without shuffling, so the hosts Pick offers first are the replicas in list order")
 
 	type item struct {
 		a     arrangement
@@ -271,6 +274,31 @@ func main() {
 		}()
 	}
 	wg.Wait()
+
+	// second part: topology-change sequences through a token-aware policy (sequences.go)
+	findSeqKeys()
+	sitems := seqItems(r.Thorough())
+	first = 0
+	for first < len(sitems) && sitems[first].a.n <= 2 {
+		runSeqItem(sitems[first], strats)
+		first++
+	}
+	next = int64(first) - 1
+	for w := 0; w < runtime.NumCPU(); w++ {
+		wg.Add(1)
+		go func() {
+			defer wg.Done()
+			for {
+				i := atomic.AddInt64(&next, 1)
+				if i >= int64(len(sitems)) {
+					return
+				}
+				runSeqItem(sitems[i], strats)
+			}
+		}()
+	}
+	wg.Wait()
+	r.Extra("topology_change_sequences", seqExtra())
 
 	r.Extra("ring_arrangements", len(arrs))
 	r.Extra("ring_labellings", len(items))
